@@ -792,4 +792,140 @@ def history (t : Tables) (mp : Maps) (imp : Str → Str → J → Option V) (beh
   | ev :: rest => (ev, stepBlock t mp imp s ev, (step t mp imp behave s ev).cache) ::
       history t mp imp behave (step t mp imp behave s ev) rest
 
+/-! ## the monitors decide the specification -/
+
+section monitors
+variable [DecidableEq V]
+
+theorem dictGet_none_of_not_mem {κ ν : Type} [BEq κ] [LawfulBEq κ] (d : List (κ × ν)) (k : κ) (h : k ∉ d.map (·.1)) :
+    dictGet d k = none := by
+  induction d with
+  | nil => rfl
+  | cons e rest ih =>
+    simp only [List.map_cons, List.mem_cons, not_or] at h
+    unfold dictGet
+    have : (e.1 == k) = false := by
+      cases hx : (e.1 == k) with
+      | false => rfl
+      | true => exact absurd (by simpa using hx : e.1 = k).symm h.1
+    simp only [this, Bool.false_eq_true, if_false]
+    exact ih h.2
+
+omit [DecidableEq V] in
+theorem getEq_of_keys (c c' : Cache V) (P : (Str × Str) → Prop) [DecidablePred P]
+    (h : ∀ k ∈ keysOf c ++ keysOf c', P k ∨ dictGet c' k = dictGet c k) : ∀ k, ¬ P k → dictGet c' k = dictGet c k := by
+  intro k hk
+  by_cases hm : k ∈ keysOf c ++ keysOf c'
+  · rcases h k hm with h | h
+    · exact absurd h hk
+    · exact h
+  · simp only [List.mem_append, not_or, keysOf] at hm
+    rw [dictGet_none_of_not_mem c k hm.1, dictGet_none_of_not_mem c' k hm.2]
+
+theorem sameCacheB_iff (c c' : Cache V) : sameCacheB c c' = true ↔ SameCache c c' := by
+  unfold sameCacheB SameCache
+  constructor
+  · intro h k
+    have := getEq_of_keys c c' (fun _ => False) (by
+      intro k hk
+      right
+      have := (List.all_eq_true.1 h) k hk
+      exact (by simpa using this : dictGet c k = dictGet c' k).symm) k (by simp)
+    exact this.symm
+  · intro h
+    rw [List.all_eq_true]
+    intro k _
+    simp [h k]
+
+theorem blockOnceB_iff (live : List Reg) (m p : Str) (item : Item V) (block : List (Call V)) :
+    blockOnceB live m p item block = true ↔ BlockOnce live m p item block := by
+  unfold blockOnceB BlockOnce
+  rw [Bool.and_eq_true]
+  constructor
+  · rintro ⟨h1, h2⟩
+    refine ⟨?_, ?_⟩
+    · intro c hc
+      have := (List.all_eq_true.1 h1) c hc
+      simpa [and_assoc] using this
+    · intro r hr
+      by_cases hm : r ∈ live ++ block.map (·.reg)
+      · have := (List.all_eq_true.1 h2) r hm
+        simp only [Bool.or_eq_true, Bool.not_eq_true', beq_iff_eq] at this
+        rcases this with h | h
+        · have : (levels m p).contains r.key = true := by simpa using hr
+          rw [this] at h; cases h
+        · exact h
+      · simp only [List.mem_append, not_or] at hm
+        rw [List.count_eq_zero.2 hm.2, List.count_eq_zero.2 hm.1]
+  · rintro ⟨h1, h2⟩
+    refine ⟨?_, ?_⟩
+    · rw [List.all_eq_true]
+      intro c hc
+      have := h1 c hc
+      simpa [and_assoc] using this
+    · rw [List.all_eq_true]
+      intro r _
+      by_cases hr : r.key ∈ levels m p
+      · simp [h2 r hr]
+      · simp [hr]
+
+theorem effectiveB_iff (t : Tables) (mp : Maps) (imp : Str → Str → J → Option V) (now : Int) (msg : Msg J)
+    (m p : Str) (item : Item V) : effectiveB t mp imp now msg m p item = true ↔ Effective t mp imp now msg m p item := by
+  unfold effectiveB Effective
+  simp [and_assoc]
+
+theorem stepOkB_iff (t : Tables) (mp : Maps) (imp : Str → Str → J → Option V) (c : Cache V) (live : List Reg) (ev : Ev J)
+    (block : List (Call V)) (c' : Cache V) : stepOkB t mp imp c live ev block c' = true ↔ StepOk t mp imp c live ev block c' := by
+  unfold stepOkB StepOk
+  cases ev with
+  | unregister r => simp [sameCacheB_iff, List.isEmpty_iff]
+  | register r => simp [sameCacheB_iff, immediateOnceB, ImmediateOnce, List.isPerm_iff]
+  | line now l =>
+    simp only
+    split
+    · rename_i m p msg _
+      cases hg : dictGet c' (m, p) with
+      | none => simp
+      | some item =>
+        simp only [Bool.and_eq_true, effectiveB_iff, blockOnceB_iff]
+        constructor
+        · rintro ⟨⟨he, hk⟩, hb⟩
+          refine ⟨item, rfl, he, ?_, hb⟩
+          exact getEq_of_keys c c' (fun k => k = (m, p)) (by
+            intro k hk'
+            have := (List.all_eq_true.1 hk) k hk'
+            simpa using this)
+        · rintro ⟨item', hi, he, hk, hb⟩
+          cases hi
+          refine ⟨⟨he, ?_⟩, hb⟩
+          rw [List.all_eq_true]
+          intro k _
+          by_cases hkm : k = (m, p)
+          · simp [hkm]
+          · simp [hk k hkm]
+    · simp [sameCacheB_iff, List.isEmpty_iff]
+
+theorem judgeFrom_iff (t : Tables) (mp : Maps) (imp : Str → Str → J → Option V) (behave : Call V → Outcome) (i : Nat)
+    (c : Cache V) (live : List Reg) (steps : List (Ev J × List (Call V) × Cache V)) :
+    judgeFrom t mp imp behave i c live steps = none ↔ Mirrors t mp imp behave c live steps := by
+  induction steps generalizing i c live with
+  | nil => exact ⟨fun _ => Mirrors.nil _ _, fun _ => rfl⟩
+  | cons st rest ih =>
+    obtain ⟨ev, block, c'⟩ := st
+    unfold judgeFrom
+    by_cases hs : stepOkB t mp imp c live ev block c' = true
+    · simp only [hs, if_true]
+      rw [ih]
+      constructor
+      · intro h; exact Mirrors.cons _ _ _ _ _ _ ((stepOkB_iff ..).1 hs) h
+      · intro h; cases h with
+        | cons _ _ _ _ _ _ _ h2 => exact h2
+    · simp only [hs, Bool.false_eq_true, if_false]
+      constructor
+      · intro h; cases h
+      · intro h; cases h with
+        | cons _ _ _ _ _ _ h1 _ => exact absurd ((stepOkB_iff ..).2 h1) hs
+
+end monitors
+
 end Frappy.Lemmas.Cache
